@@ -138,7 +138,7 @@ func c05(c *orch.Ctx) (*report.Result, error) {
 	jobs := make([]*job, len(projects))
 	orch.ParallelMap(len(projects), 4, func(i int) {
 		p := projects[i]
-		rp := BuildRouterProject(c, l, bin, p, RouterOpts{})
+		rp := BuildRouterProject(c, l, bin, p, RouterOpts{EnumValid: i%3 == 0})
 		j := &job{rp: rp}
 		r := rng.New(c.Seed, "C05-req", p.Name)
 		k := 0
